@@ -10,7 +10,7 @@ use serde_json::json;
 pub fn prop() -> Prop {
   Prop {
     id: "C16",
-    rule: "case = (producer: interval(p) on the virtual scheduler, from_iter over a counting iterator of 40 items, from_stream over a counting stream of 40 ready items (gated shape also: over a stream that is never ready - every poll answers Pending and nothing wakes the task; there the stream has ended before the task first runs, and the task must retire without polling); 0..3 intermediate operators that do not end the stream themselves (take(30+), take_while(true), skip_last, map, filter, tap, scan, skip, skip_while, start_with, distinct_until_changed, pairwise, buffer_with_count, finalize, box_it, on_complete, default_if_empty, on_error_map, complete_status, and the timer-owning buffer_with_time, buffer_with_count_and_time, debounce, throttle_time); an early-terminating operator: take(n>=1), first, element_at, take_while, contains, all, take_until(hot notifier); the producer chain either is the main input of the cutter or sits in the second (notifier/other) position of merge / zip / combine_latest / with_latest_from / sample / buffer / skip_until / take_until whose main input is a scripted hot input, with the cutter on top; local and thread-safe builds; script of <= 10 emissions / clock advances; one case in eight ends the stream late: producers of 160 items, take / element_at / take_while at 33..120, clock advances of 20..80 ticks; one case in five: the producer chain is the MAIN input of merge / zip / combine_latest / with_latest_from / sample / buffer / skip_until / take_until whose second input is a scripted hot subject (a gate that may stay silent), and the stream is ended by something else downstream - take_until(second hot subject), or take(k) over a merge with a cold sibling of k items that fills it at subscription). \
+    rule: "case = (producer: interval(p) on the virtual scheduler, from_iter over a counting iterator of 40 items, from_stream / from_stream_result over a counting stream of 40 ready items (gated shape also: over a stream that is never ready - every poll answers Pending and nothing wakes the task; there the stream has ended before the task first runs, and the task must retire without polling); 0..3 intermediate operators that do not end the stream themselves (take(30+), take_while(true), skip_last, map, filter, tap, scan, skip, skip_while, start_with, distinct_until_changed, pairwise, buffer_with_count, finalize, box_it, on_complete, default_if_empty, on_error_map, complete_status, and the timer-owning buffer_with_time, buffer_with_count_and_time, debounce, throttle_time); an early-terminating operator: take(n>=1), first, element_at, take_while, contains, all, take_until(hot notifier); the producer chain either is the main input of the cutter or sits in the second (notifier/other) position of merge / zip / combine_latest / with_latest_from / sample / buffer / skip_until / take_until whose main input is a scripted hot input, with the cutter on top; local and thread-safe builds; script of <= 10 emissions / clock advances; one case in eight ends the stream late: producers of 160 items, take / element_at / take_while at 33..120, clock advances of 20..80 ticks; one case in five: the producer chain is the MAIN input of merge / zip / combine_latest / with_latest_from / sample / buffer / skip_until / take_until whose second input is a scripted hot subject (a gate that may stay silent), and the stream is ended by something else downstream - take_until(second hot subject), or take(k) over a merge with a cold sibling of k items that fills it at subscription). \
            Oracle (applied when the subscriber received its terminal): running the scheduler until idle terminates - after at most (number of periodic producers) further timer firings no timer is pending and no scheduled task is alive; a counting iterator is asked for at most one more item after the terminal; a counting stream is polled at most once more. Non-trivial: the terminal was caused by the cutter (not by the producer running out) and there is >= 1 intermediate operator or the producer is in notifier position. Distinct by hash(case).",
     assumptions: &["iterators and streams are bounded (40 items) so that a producer that is not stopped shows up as extra pulls, not as a hang"],
     parts: vec![Part { name: "producers", run: run_case, tape_len: 64, quick_cases: 600_000, thorough_cases: 12_000_000, exhaustive_depth: None, exhaustive_budget: 0, exh_quick: false }],
@@ -87,11 +87,12 @@ fn gen_case(c: &mut dyn Choices) -> Case {
 
 fn gen_gated(c: &mut dyn Choices) -> Case {
   // (SilentStream: new alternative at the high end of the pick, recorded tapes keep their meaning)
-  let producer = match c.pick(4) {
+  let producer = match c.pick(5) {
     0 => Src::Interval(1 + c.pick(2) as u64),
     1 => Src::CountingIter(40),
     2 => Src::CountingStream(40),
-    _ => Src::SilentStream,
+    3 => Src::SilentStream,
+    _ => Src::CountingTryStream(40),
   };
   let n_mid = c.pick(3);
   let mut chain = Node::Src(producer.clone());
@@ -128,10 +129,12 @@ fn gen_gated(c: &mut dyn Choices) -> Case {
 }
 
 fn gen_case_with(c: &mut dyn Choices, late: bool) -> Case {
-  let producer = match c.pick(4) {
+  // (CountingTryStream: new alternative at the high end of the pick, recorded tapes keep their meaning)
+  let producer = match c.pick(5) {
     0 | 1 => Src::Interval(1 + c.pick(if late { 2 } else { 3 }) as u64),
     2 => Src::CountingIter(if late { 400 } else { 40 }),
-    _ => Src::CountingStream(if late { 400 } else { 40 }),
+    3 => Src::CountingStream(if late { 400 } else { 40 }),
+    _ => Src::CountingTryStream(if late { 400 } else { 40 }),
   };
   let n_mid = c.pick(4);
   let mut chain = Node::Src(producer.clone());
@@ -191,6 +194,7 @@ fn producer_name(s: &Src) -> &'static str {
     Src::CountingIter(_) => "from_iter",
     Src::CountingStream(_) => "from_stream",
     Src::SilentStream => "from_stream(silent)",
+    Src::CountingTryStream(_) => "from_stream_result",
     _ => "?",
   }
 }
@@ -241,7 +245,7 @@ fn run_case(c: &mut dyn Choices, ctx: &Ctx) -> Outcome {
         // was the producer exhausted (then there is nothing to retire)?
         let exhausted = match case.producer {
           Src::CountingIter(n) => at.iter_pulls >= n,
-          Src::CountingStream(n) => at.stream_polls > n,
+          Src::CountingStream(n) | Src::CountingTryStream(n) => at.stream_polls > n,
           _ => false,
         };
         nt = !exhausted && (case.n_mid >= 1 || case.notifier_pos.is_some());
